@@ -51,7 +51,8 @@ def add_noise(R, nz):
 
 def s_exp3():
     return st.fixed_dictionaries({"kind": st.just("exp3"), "w": rotvec(), "v": st.one_of(gens.trans(3, -6, 6), st.just([0.0, 0.0, 0.0])),
-                                  "se": st.booleans(), "matrix": st.booleans(), "theta_form": st.booleans()})
+                                  "se": st.booleans(), "matrix": st.booleans(), "theta_form": st.booleans(),
+                                  "norm6": st.sampled_from([False, False, False, False, True])})
 
 
 def s_log3():
@@ -150,6 +151,12 @@ def _exp3(case):
     w, v = _wv(case)
     th = case["w"]["mag"]
     se = case["se"]
+    if case.get("norm6") and se:
+        # the 6-vector as a whole has norm 1 (|w| < 1 in general): not a unit twist, and must not be treated as one
+        n6 = float(np.linalg.norm(np.r_[v, w]))
+        if n6 > 1e-3 and math.isfinite(n6):
+            v, w = v / n6, w / n6
+            th = float(np.linalg.norm(w))
     c = Checker("exp3", theta=th, pi_minus_theta=PI - th, se=se, matrix=case["matrix"])
     if se:
         hat = refs.hat6(v, w)
